@@ -164,3 +164,52 @@ Theorem run_round_hb rnd nz b env :
 Proof.
   unfold compile_hb. rewrite run_round_compile. f_equal. apply compile_hb_exec.
 Qed.
+
+(* ------------------------------------------------------------------ exact arithmetic (rnd = Num) *)
+Lemma vapp_inj_ho o a b : vapp Num o (inj a) (inj b) = inj (dapp o a b).
+Proof.
+  destruct a as [x|], b as [y|], o; cbn; try reflexivity; destruct (Qeq_bool y 0); reflexivity.
+Qed.
+
+Lemma happ_inj o a b : happ Num o (inj a) (inj b) = inj (dhapp o a b).
+Proof.
+  destruct o as [o| |]; [apply vapp_inj_ho| |];
+    destruct a as [x|], b as [y|]; cbn; try reflexivity.
+  - unfold vmax, pymax. cbn. destruct (Qlt_bool x y); reflexivity.
+  - unfold vmin, pymin. cbn. destruct (Qlt_bool y x); reflexivity.
+Qed.
+
+Lemma hunapp_inj u a : hunapp u (inj a) = inj (dhun u a).
+Proof.
+  destruct u, a as [x|]; cbn; try reflexivity.
+  - unfold vcons, pymax. cbn. destruct (Qlt_bool x 0); reflexivity.
+  - unfold vprod, pymax. cbn. destruct (Qlt_bool (- x) 0); reflexivity.
+Qed.
+
+Lemma hval_exact fd b : hb_consts_finite b = true ->
+  hval Num (fun n => inj (fd n)) b = inj (hvalD fd b).
+Proof.
+  induction b as [n|b IH o n|b IH o c|b IH o b' IH'|b IH u]; cbn [hb_consts_finite hval hvalD]; intros H.
+  - reflexivity.
+  - rewrite (IH H). apply happ_inj.
+  - apply andb_true_iff in H. destruct H as [H1 H2]. rewrite (IH H1).
+    destruct c; try discriminate. apply (happ_inj o _ (Some q)).
+  - apply andb_true_iff in H. destruct H as [H1 H2]. rewrite (IH H1), (IH' H2). apply happ_inj.
+  - rewrite (IH H). apply hunapp_inj.
+Qed.
+
+Lemma hval_ext_all rnd fv1 fv2 b : (forall n, fv1 n = fv2 n) -> hval rnd fv1 b = hval rnd fv2 b.
+Proof.
+  intros H. induction b as [n|b IH o n|b IH o c|b IH o b' IH'|b IH u]; cbn; rewrite ?IH, ?IH', ?H; reflexivity.
+Qed.
+
+Lemma fetch_val_inj nz i : fetch_val nz i = inj (fetch_D nz i).
+Proof. destruct i, nz; reflexivity. Qed.
+
+Theorem run_round_hb_exact nz b env : hb_consts_finite b = true ->
+  run_round Num (compile_hb nz b) env = Emit (hvalD (fun n => fetch_D nz (env n)) b).
+Proof.
+  intros H. rewrite run_round_hb.
+  rewrite (hval_ext_all Num _ (fun n => inj (fetch_D nz (env n))) b (fun n => fetch_val_inj nz (env n))).
+  rewrite (hval_exact _ b H). destruct (hvalD _ b); reflexivity.
+Qed.
